@@ -177,6 +177,17 @@ tm_toggled (DBusTimeout *t, void *data)
   pthread_mutex_unlock (&tm_mu);
 }
 
+static int
+tm_count (void)
+{
+  int i, n = 0;
+  pthread_mutex_lock (&tm_mu);
+  for (i = 0; i < MAX_TIMEOUTS; i++)
+    if (tslots[i].t != NULL) n++;
+  pthread_mutex_unlock (&tm_mu);
+  return n;
+}
+
 /* Fire every enabled timeout whose interval has elapsed.  The list lock is NOT held across
  * dbus_timeout_handle (the handler takes the connection lock, and libdbus calls tm_remove with
  * the connection lock held). */
@@ -206,6 +217,9 @@ tm_fire_due (void)
   if (fired) atomic_fetch_add (&n_timer_fired, fired);
   return fired;
 }
+
+static int gated_fire (void);
+static int timer_gate;
 
 /* ------------------------------------------------------------------ operations */
 
@@ -356,7 +370,7 @@ exec_op (const Op *o)
     case 'P':
       {
         dbus_bool_t r = dbus_connection_read_write_dispatch (conn, (int) o->a);
-        int f = tm_fire_due ();
+        int f = timer_gate ? 0 : tm_fire_due ();   /* gated: fired by thread_main after the shared gate is dropped */
         e = ev_new ("pump", -1);
         e->a = r; e->b = f;
         break;
@@ -377,7 +391,7 @@ exec_op (const Op *o)
       }
     case 'F':
       {
-        int f = tm_fire_due ();
+        int f = gated_fire ();
         e = ev_new ("fire", -1);
         e->a = f;
         break;
@@ -390,6 +404,25 @@ exec_op (const Op *o)
     }
 }
 
+/* Timer gate (default on; VERIF_C17_TIMER_GATE=0 turns it off for exploration): dbus_timeout_handle is
+ * only ever called while no other thread is inside a libdbus call (operations hold the gate shared,
+ * timer firing takes it exclusively or is skipped), so that a DBusTimeout can never be handled
+ * concurrently with libdbus removing it from another thread - the harness stays a valid API client by
+ * construction. */
+static pthread_rwlock_t gate = PTHREAD_RWLOCK_INITIALIZER;
+static _Atomic int n_gate_skipped;
+
+static int
+gated_fire (void)
+{
+  int f;
+  if (!timer_gate) return tm_fire_due ();
+  if (pthread_rwlock_trywrlock (&gate) != 0) { atomic_fetch_add (&n_gate_skipped, 1); return 0; }
+  f = tm_fire_due ();
+  pthread_rwlock_unlock (&gate);
+  return f;
+}
+
 static void *
 thread_main (void *arg)
 {
@@ -397,7 +430,17 @@ thread_main (void *arg)
   my_tid = tid;
   for (i = 0; i < n_ops; i++)
     if (ops[i].tid == tid)
-      exec_op (&ops[i]);
+      {
+        if (timer_gate && ops[i].code != 'F' && ops[i].code != 'Z')
+          {
+            pthread_rwlock_rdlock (&gate);
+            exec_op (&ops[i]);
+            pthread_rwlock_unlock (&gate);
+            if (ops[i].code == 'P') gated_fire ();
+          }
+        else
+          exec_op (&ops[i]);
+      }
   return NULL;
 }
 
@@ -442,13 +485,15 @@ int main (int argc, char **argv)
   if (addr == NULL) { fprintf (stderr, "usage: h_pending <address>\n"); return 3; }
   setvbuf (stdout, NULL, _IOFBF, 1 << 16);
   if (!dbus_threads_init_default ()) return 3;
+  timer_gate = !(getenv ("VERIF_C17_TIMER_GATE") != NULL && getenv ("VERIF_C17_TIMER_GATE")[0] == '0');
 
   while ((line = hc_readline ()) != NULL)
     {
       int nthreads = 1, n_calls = 0, min_run_ms = 0, drain_ms = 3000, off = 0, i, guard;
       pthread_t th[4];
       DBusError err;
-      int drain_timeout = 0, disconnected, left = 0, n;
+      int drain_timeout = 0, disconnected, left = 0, n, quiescent = 0, fin_done = 0;
+      DBusPendingCall *fin = NULL;
       long long t_script_end;
 
       if (sscanf (line, "%d %d %d %d %n", &nthreads, &n_calls, &min_run_ms, &drain_ms, &off) < 4
@@ -498,22 +543,43 @@ int main (int argc, char **argv)
       my_tid = 0;
       t_script_end = now_us ();
 
-      /* drain */
+      /* drain.  Logical barrier instead of a guessed waiting time: a final call "Fin" is sent; the peer
+       * answers it only after everything its script scheduled has been written, and the stream is
+       * ordered, so once Fin's reply has been dispatched every scripted reply has been dispatched too. */
       atomic_store (&phase, 1);
+      if (dbus_connection_get_is_connected (conn))
+        {
+          DBusMessage *fm = dbus_message_new_method_call (NULL, "/fin", "com.example.T", "Fin");
+          if (fm == NULL || !dbus_connection_send_with_reply (conn, fm, &fin, DBUS_TIMEOUT_INFINITE)) return 3;
+          dbus_message_unref (fm);
+        }
+      fin_done = (fin == NULL);
       for (;;)
         {
           long long el = (now_us () - t_script_end) / 1000;
+          dbus_bool_t more;
+          if (!fin_done && dbus_pending_call_get_completed (fin)) fin_done = 1;
           disconnected = !dbus_connection_get_is_connected (conn);
           left = must_complete_pending (n_calls, disconnected);
-          if (left == 0 && el >= min_run_ms) break;
+          if (left == 0 && (fin_done || disconnected) && el >= min_run_ms) break;
           if ((now_us () - t_script_end) / 1000 >= drain_ms) { drain_timeout = 1; break; }
-          dbus_connection_read_write_dispatch (conn, 5);
+          more = dbus_connection_read_write_dispatch (conn, 5);
+          tm_fire_due ();
           if (disconnected)
             {
-              while (dbus_connection_dispatch (conn) == DBUS_DISPATCH_DATA_REMAINS) ;
-              usleep (1000);
+              /* Every source of events is exhausted once the connection is lost, the Disconnected
+               * signal has been dispatched (read_write_dispatch returns FALSE), the incoming queue is
+               * empty and libdbus has no timeout registered with us: waiting longer cannot complete
+               * anything.  This is a logical condition, not a watchdog. */
+              if (!more && dbus_connection_get_dispatch_status (conn) == DBUS_DISPATCH_COMPLETE
+                  && tm_count () == 0)
+                {
+                  left = must_complete_pending (n_calls, 1);
+                  quiescent = 1;
+                  break;
+                }
+              usleep (500);
             }
-          tm_fire_due ();
         }
       /* whatever is still queued gets dispatched before the final look */
       guard = 0;
@@ -521,8 +587,8 @@ int main (int argc, char **argv)
         dbus_connection_dispatch (conn);
       disconnected = !dbus_connection_get_is_connected (conn);
 
-      printf ("{\"drain_timeout\":%d,\"left\":%d,\"disconnected\":%d,\"timers_fired\":%ld,\"timer_remove_unknown\":%d,\"run_ms\":%ld,\"calls\":[",
-              drain_timeout, left, disconnected, (long) atomic_load (&n_timer_fired), atomic_load (&n_timer_lost),
+      printf ("{\"timer_gate\":%d,\"fin\":%d,\"drain_timeout\":%d,\"quiescent\":%d,\"left\":%d,\"disconnected\":%d,\"timers_fired\":%ld,\"timer_remove_unknown\":%d,\"run_ms\":%ld,\"calls\":[",
+              timer_gate, fin_done, drain_timeout, quiescent, left, disconnected, (long) atomic_load (&n_timer_fired), atomic_load (&n_timer_lost),
               (long) ((now_us () - t0_us) / 1000));
       for (i = 0; i < n_calls; i++)
         {
@@ -552,6 +618,7 @@ int main (int argc, char **argv)
             dbus_pending_call_unref (calls[i].pc);
             calls[i].pc = NULL;
           }
+      if (fin != NULL) dbus_pending_call_unref (fin);
       dbus_connection_unref (conn);
       conn = NULL;
 
